@@ -6,7 +6,8 @@ Import ListNotations.
 Definition id := nat.
 Inductive node :=
 | NIf (c : bool) (i : id) | NElseIf (c : bool) (i : id) | NElse (i : id)
-| NPlain (i : id) | NOther (i : id).                  (* NOther: text / comment *)
+| NPlain (i : id) | NOther (i : id)                   (* NOther: text / comment *)
+| NFor (n : nat) (i : id).                            (* element with v-for over n items, no v-if *)
 
 Definition is_elem (n : node) : bool := match n with NOther _ => false | _ => true end.
 Definition elseish (n : node) : bool := match n with NElseIf _ _ | NElse _ => true | _ => false end.
@@ -35,6 +36,17 @@ Fixpoint find_branch (rest : list node) (idx last : nat) : list id * nat :=
 Definition chain (c : bool) (i : id) (rest : list node) : list id * nat :=
   if c then ([i], last_member rest 1 0) else find_branch rest 1 0.
 
+(* eval_for.go:evalVFor - a loop that produced nothing looks at the NEXT ELEMENT only: a v-else there is
+   rendered in its place and skipped; anything else ends the search *)
+Fixpoint for_else (rest : list node) (idx : nat) : list id * nat :=
+  match rest with
+  | [] => ([], 0)
+  | NOther _ :: r => for_else r (S idx)
+  | NElse i :: _ => ([i], idx)
+  | _ => ([], 0)
+  end.
+Fixpoint rep_id (n : nat) (i : id) : list id := match n with O => [] | S m => i :: rep_id m i end.
+
 (* evaluate: the for loop with i += skipCount, on fuel *)
 Fixpoint evaluate (fuel : nat) (l : list node) : list id :=
   match fuel with O => [] | S f =>
@@ -43,6 +55,8 @@ Fixpoint evaluate (fuel : nat) (l : list node) : list id :=
   | NOther _ :: r => evaluate f r                     (* rendered, but not an element *)
   | NPlain i :: r => i :: evaluate f r
   | NIf c i :: r => let '(out, skip) := chain c i r in out ++ evaluate f (skipn skip r)
+  | NFor O i :: r => let '(out, skip) := for_else r 1 in out ++ evaluate f (skipn skip r)
+  | NFor n i :: r => rep_id n i ++ evaluate f r
   | _ :: r => evaluate f r                            (* orphan v-else-if / v-else *)
   end end.
 
@@ -64,6 +78,8 @@ Fixpoint spec (fuel : nat) (l : list node) : list id :=
   | [] => []
   | NPlain i :: r => i :: spec f r
   | NIf c i :: r => (if c then [i] else first_truthy (take_members r)) ++ spec f (drop_members r)
+  | NFor O _ :: NElse j :: r => j :: spec f r         (* an empty loop renders the v-else right after it *)
+  | NFor n i :: r => rep_id n i ++ spec f r           (* one instance per item; not a chain member *)
   | _ :: r => spec f r
   end end.
 
